@@ -36,4 +36,16 @@ PROPS = {
         "assumptions": ["G9.Logger mirrors log.go (checked by this check's differential run)",
                         "the logger goroutine is scheduled (no real-time bound is proved)"],
     },
+    "C04": {
+        "rule": "random sequential histories (1..25 requests, plus long ones of 200..2000) over fid numbers {1,2,3,4,77,NOFID}: "
+                "attach/auth/walk (full, partial, failing, in place)/open/create/read/write/stat/wstat/clunk/remove/flush/"
+                "R-message-as-request/Tversion, each with scripted implementation success or error, with and without AuthOps, "
+                "both dialects, msize 24..8216; after every request the real framework's reply, calls into the implementation, "
+                "FidDestroy log and whole fid table (number,user,type,opened,mode,diroffset,refcount via the verif accessor) are "
+                "compared with the model step. non-trivial = distinct histories with at least one non-error reply",
+        "modelled": ["modelled, not verified: one request at a time (each answered before the next is sent); the fid map as an "
+                     "association list; users as uid numbers (OsUsers)"],
+        "assumptions": ["G9.SrvSeq mirrors srv_srv.go/srv_fcall.go/srv_respond.go for sequential histories (checked by the differential run)",
+                        "concurrent requests on one connection are the subject of C03/C07/C08/C11, not of this model"],
+    },
 }
